@@ -113,6 +113,22 @@ def val_digest(v):
     return "s" + str(v)
 
 
+def meta_proj(v, toks):
+    """header value for TLC: numbers as ["n", <<hi, lo>>] (compared at FITS card precision by the spec), anything
+    else as ["s", token]"""
+    from .f64 import bits
+    if isinstance(v, tuple):
+        v = v[0]
+    if isinstance(v, (bool, np.bool_)):
+        return ["s", toks.tok("b" + str(bool(v)))]
+    if isinstance(v, (int, float, np.integer, np.floating)):
+        f = float(v)
+        if f != f or f in (float("inf"), float("-inf")):
+            return ["s", toks.tok("nonfinite" + repr(f))]
+        return ["n", bits(f)]
+    return ["s", toks.tok("s" + str(v))]
+
+
 RESULT_KEYS_PREFIX = ("OMC", "ONEV", "RMC", "RNEV")
 
 
@@ -130,7 +146,7 @@ def snapshot_table(t, toks):
         "rows": int(len(t)) if cols else 0,
         "dig": [toks.tok(col_digest(t[c])) for c in cols],
         "meta": [str(k) for k in meta_keys],
-        "metav": [toks.tok(val_digest(t.meta[k])) for k in meta_keys],
+        "metav": [meta_proj(t.meta[k], toks) for k in meta_keys],
     }
 
 
@@ -184,7 +200,7 @@ def install_table(events, toks, out_path, fault, sink=None):
         def __setitem__(self, key, value):
             if (id(self) == primary.get("meta") and not getattr(self, "_quiet", False) and not is_config_key(key)
                     and key != "simTime" and not str(key).startswith("__")):
-                before_mutation("meta", [str(key)], 0, [toks.tok(val_digest(value))])
+                before_mutation("meta", [str(key)], 0, [meta_proj(value, toks)])
             dict.__setitem__(self, key, value)
 
     class VTable(Table):
